@@ -159,6 +159,9 @@ class CFG(object):
         if isinstance(st, ast.Return):
             self.g.add_edge(n, self.exit, label=None, kind="return")
             return []
+        if isinstance(st, ast.Assert) and isinstance(st.test, ast.Constant) and st.test.value is False:
+            self.g.add_edge(n, self.raise_exit, label=None, kind="raise")
+            return []
         if isinstance(st, ast.Raise):
             targets = self._try_stack[-1] if self._try_stack else []
             self.g.add_edge(n, self.raise_exit, label=None, kind="raise")
